@@ -139,6 +139,14 @@ CHECKS.update({
         note=SIM_NOTE),
 })
 
+CHECKS.update({
+    "C19": dict(
+        engine="E4 enum", category="exploration", design_ref="DESIGN.md section 5 C19",
+        technique="exhaustive enumeration of a layout grammar (1472 generated struct/enum definitions compiled with the working tree's derive) x per-type value products and buffer sets (complete for types <= 2 bytes); oracle: independent reference construction by declared bit position generated from the declaration",
+        text="For every generated layout: pack places every field at its declared bit position with undeclared bits zero, unpack of any buffer of the packed length (and longer) recovers the fields from those positions, unpack(pack(v)) == v, undefined enum values and short buffers are errors (InvalidValue / ReadBufferTooShort) and never panic, pack_to_slice refuses every short destination without writing.",
+        note="The generated crates live in mc/wiregen (regenerate with tools/gen_wire_types.py); they are rebuilt whenever /repo/ethercrab-wire* changes."),
+})
+
 NOT_YET = {
 }
 
